@@ -3,7 +3,8 @@
    (cw_eq_bw) needs the character-wise certificate, which is not proved yet: it is decided by the
    correspondence check, which compares the two IMPLEMENTATIONS directly on UTF-8 twins and each
    with its model and with the byte-level specification (see DESIGN.md section 0). *)
-From DV Require Import Model.Base Model.Utf8 Model.Spec Proofs.Utf8Props.
+From DV Require Import Model.Base Model.Nfa Model.BwBuild Model.BwSearch Model.Utf8 Model.CwBuild Model.Api Model.Spec Model.Cert
+     Proofs.Utf8Props Proofs.BwCert Proofs.CwCert.
 Local Open Scope N_scope.
 
 (* (1) self-synchronisation: a non-empty UTF-8 pattern occurs in a UTF-8 text only at a character
@@ -43,6 +44,33 @@ Print Assumptions chars_of_encoded_text.
 Theorem len_utf8_is_encoded_length : forall c, length (encode_char c) = N.to_nat (len_utf8 c).
 Proof. exact encode_char_length. Qed.
 Print Assumptions len_utf8_is_encoded_length.
+
+(* (5) both automata against their specifications, on the same UTF-8 text: the character-wise
+   result is the character-level specification with byte offsets; the byte-wise result is the
+   byte-level specification of the encoded patterns.  (That these two lists coincide is the list
+   form of (1); it is listed as the missing theorem spec_bytes_eq_spec_chars.) *)
+Theorem cw_and_bw_against_their_specs :
+  forall (V : Type) (veqb : V -> V -> bool), (forall a b, veqb a b = true -> a = b) ->
+  forall (C : cw_automaton V) (B : bw_automaton V) (pvs : list (list N * V)),
+    cw_cert_ok veqb C pvs = true ->
+    bw_cert_ok veqb B (map (fun pv => (encode_utf8 (fst pv), snd pv)) pvs) = true ->
+  forall cs : list N, Forall scalar cs ->
+    cw_find_overlapping_iter V C (encode_utf8 cs) = Ok (map (to_bytes V cs) (spec_overlapping V pvs cs))
+    /\ bw_find_overlapping_iter V B (encode_utf8 cs)
+       = Ok (spec_overlapping V (map (fun pv => (encode_utf8 (fst pv), snd pv)) pvs) (encode_utf8 cs)).
+Proof.
+  intros V veqb Hv C B pvs HC HB cs Hs. split.
+  - exact (cw_overlapping_correct_lemma V veqb Hv C pvs HC cs Hs).
+  - apply (bw_overlapping_correct_lemma V veqb Hv B _ HB).
+    apply Forall_forall. intros b Hb. unfold encode_utf8 in Hb. apply in_flat_map in Hb as (c & Hc & Hb).
+    rewrite Forall_forall in Hs. specialize (Hs c Hc). apply scalar_range in Hs.
+    unfold encode_char in Hb.
+    destruct (c <? 128) eqn:E1; [destruct Hb as [<-|[]]; lia|].
+    destruct (c <? 2048) eqn:E2; [destruct Hb as [<-|[<-|[]]]; lia|].
+    destruct (c <? 65536) eqn:E3; [destruct Hb as [<-|[<-|[<-|[]]]]; lia|].
+    destruct Hb as [<-|[<-|[<-|[<-|[]]]]]; lia.
+Qed.
+Print Assumptions cw_and_bw_against_their_specs.
 
 (* Non-vacuity: "é" (2 bytes) inside "aé😀é": found at byte offset 1 = boundary of character 1,
    not at the continuation byte; U+10FFFF decodes. *)
